@@ -57,7 +57,14 @@ func (s *Scheduler) Schedule(g *ExecutionGraph) error {
 			}
 
 			if stage.Condition != "" {
-				meets, err := checkStageCondition(s.ctx, stage.Condition)
+				// a cancellation ends the condition that is being evaluated; one that is only looked at afterwards, in
+				// the pass that was under way (the loop stops at its next turn), is evaluated as it always was
+				ctx := s.ctx
+				if ctx.Err() != nil {
+					ctx = context.Background()
+				}
+
+				meets, err := checkStageCondition(ctx, stage.Condition)
 				if err != nil {
 					logrus.Error(err)
 					stage.UpdateStatus(StatusError)
